@@ -259,7 +259,10 @@ func ReadPatchString(s string) (Diff, error) {
 			diff = append(diff, e)
 		} else {
 			i := len(diff) - 1
-			if diff[i].Path.JsonNode().Equals(e.Path.JsonNode()) && !hasContextValues(e) {
+			// A hunk removes before it adds, so a removal that comes after
+			// an add on the same path cannot be folded into that hunk.
+			removeAfterAdd := len(diff[i].Add) > 0 && len(e.Remove) > 0
+			if diff[i].Path.JsonNode().Equals(e.Path.JsonNode()) && !hasContextValues(e) && !removeAfterAdd {
 				diff[i].Remove = append(diff[i].Remove, e.Remove...)
 				if isAppendPath(e.Path) {
 					// Appends to the end ("-") happen in order
